@@ -65,7 +65,8 @@ def case_st(draw):
         k = draw(st.sampled_from(['csend', 'csend', 'ssend', 'advance', 'cburst', 'sburst']))
         if k in ('cburst', 'sburst'):
             steps.append({'do': k, 'data': [rm.tag(draw(payload_st))
-                                            for _ in range(draw(st.integers(2, 5)))]})
+                                            for _ in range(draw(st.sampled_from(
+                                                [2, 3, 5, 16, 17, 20])))]})
         elif k == 'advance':
             steps.append({'do': 'advance', 'dt': draw(st.sampled_from([0.25, 1.0, 2.5, 5.0, 12.0]))})
         else:
